@@ -212,6 +212,23 @@ pub fn gen_arrangement(src: &mut Src) -> Arrangement {
             _ => {}
         }
     }
+    // more appended draws: a file defines a gate named like a library gate, and the library is
+    // (also) included after the files — the clash is then reported in another file than the one
+    // that holds the definition
+    let mut main = main;
+    let mut any_clash = false;
+    for f in files.iter_mut() {
+        if f.has_syntax_fault {
+            continue;
+        }
+        if src.chance(1, 6) {
+            f.body.push_str(["gate h a { }\n", "gate cx a, b { }\n", "gate swap a, b { }\n"][src.below(3)]);
+            any_clash = true;
+        }
+    }
+    if any_clash || src.chance(1, 8) {
+        main.push_str("include \"stdgates.inc\";\n");
+    }
     // more appended draws: a construct the analyser does not support (reported, with a
     // placeholder in the graph), at any include depth
     for (i, f) in files.iter_mut().enumerate() {
@@ -820,6 +837,17 @@ pub const C03_CHAIN_CONSTRUCTS: &[&str] = &[
     "int[8] e = {1, 2};",
     "\"a string\";",
     "(1, 2);",
+    // an expression without `;` in front of a closing brace (not a statement in the tree)
+    "bool tc; if (tc) { tc && tc }",
+    "int tz; while (false) { tz = 1; undeclared_tail }",
+    "def tf() { 1 + undeclared_in_tail }",
+    "for int ti in [0:1] { ti < 2 }",
+    // control flow without a body (the lone `;` is skipped by the parser)
+    "bool ec; int ex; if (ec); else ex = 1;",
+    "bool ed; if (ed); else { }",
+    "bool ee; if (ee); else if (ee) { }",
+    "bool ef; while (ef);",
+    "for int eg in [0:1];",
     "HEADERS:bool hun = 1 < 2;",
     "HEADERS:array[int, 3] hua;",
     "HEADERS:qubit hq; qubit hq;",
